@@ -330,11 +330,13 @@ Qed.
 
 Theorem C11_quiescent_lemma c ops ks :
   cfg_ok c -> Forall op_ok ops ->
-  c11q_eval (mkQ (map (fun k => dump_of (fst (run c srv_init (firstn k ops)))) ks)) = 0%nat.
+  c11q_eval (mkQ (map (fun k => dump_of (fst (run c srv_init (firstn k ops)))) ks) (map (fun _ => 0%nat) ks)) = 0%nat.
 Proof.
   intros Hc Ho. unfold c11q_eval.
-  assert (H : c11q_ok (mkQ (map (fun k => dump_of (fst (run c srv_init (firstn k ops)))) ks)) = true).
-  { unfold c11q_ok. cbn [q_dumps]. apply forallb_forall. intros d Hd. apply in_map_iff in Hd.
+  assert (H : c11q_ok (mkQ (map (fun k => dump_of (fst (run c srv_init (firstn k ops)))) ks) (map (fun _ => 0%nat) ks)) = true).
+  { unfold c11q_ok, no_retained_tasks. cbn [q_dumps q_tasks]. apply andb_true_intro. split.
+    2:{ apply forallb_forall. intros n Hn. apply in_map_iff in Hn. destruct Hn as [k [<- _]]. reflexivity. }
+    apply forallb_forall. intros d Hd. apply in_map_iff in Hd.
     destruct Hd as [k [<- _]]. apply C11_final_lemma; auto. apply Forall_firstn_ok; exact Ho. }
   rewrite H. reflexivity.
 Qed.
@@ -342,11 +344,16 @@ Qed.
 (* non-vacuity: the example history passes at every boundary; a callback slot, or a pending entry, kept for a
    client that is gone is rejected, with the kind of residue in the code (2 + 2 * sum 2^kind) *)
 Example ex_quiescent_ok :
-  c11q_eval (mkQ (map (fun k => dump_of (fst (run ex_cfg srv_init (firstn k ex_ops)))) (seq 0 (S (List.length ex_ops))))) = 0%nat.
+  c11q_eval (mkQ (map (fun k => dump_of (fst (run ex_cfg srv_init (firstn k ex_ops)))) (seq 0 (S (List.length ex_ops))))
+                 (map (fun _ => 0%nat) (seq 0 (S (List.length ex_ops))))) = 0%nat.
 Proof. vm_compute. reflexivity. Qed.
 Example ex_quiescent_rejects_callback :
-  c11q_eval (mkQ [dump_of srv_init; mkDump [] [] [(sid_name 0, Some 2, [1])] [] [] [] []]) = (2 + 2 * (8 + 128))%nat.
+  c11q_eval (mkQ [dump_of srv_init; mkDump [] [] [(sid_name 0, Some 2, [1])] [] [] [] []] [0; 0]%nat) = (2 + 2 * (8 + 128))%nat.
 Proof. vm_compute. reflexivity. Qed.
 Example ex_quiescent_rejects_pending :
-  c11q_eval (mkQ [mkDump [] [(ex_ns, [sid_name 0])] [] [] [] [] []]) = (2 + 2 * (4 + 128))%nat.
+  c11q_eval (mkQ [mkDump [] [(ex_ns, [sid_name 0])] [] [] [] [] []] [0%nat]) = (2 + 2 * (4 + 128))%nat.
+Proof. vm_compute. reflexivity. Qed.
+(* every table is empty, but finished handler tasks of departed clients are still referenced somewhere *)
+Example ex_quiescent_rejects_retained_tasks :
+  c11q_eval (mkQ [dump_of srv_init; dump_of srv_init] [0; 3]%nat) = (2 + 2 * 256)%nat.
 Proof. vm_compute. reflexivity. Qed.
